@@ -21,6 +21,8 @@ var codeType = reflect.TypeOf((*jen.Code)(nil)).Elem()
 
 type evLog struct{ evs []Rec }
 
+const noVariadic = -7 // synth: leave the variadic part empty, strings contain formatting verbs
+
 func (l *evLog) add(e, id string) { l.evs = append(l.evs, Rec{"e": e, "id": id}) }
 
 // synth builds an argument list for fn. Callbacks log "cb" with the given id.
@@ -29,6 +31,13 @@ func synth(ft reflect.Type, log *evLog, id string, salt int) ([]reflect.Value, b
 	for i := 0; i < ft.NumIn(); i++ {
 		pt := ft.In(i)
 		variadic := ft.IsVariadic() && i == ft.NumIn()-1
+		if variadic && salt == noVariadic {
+			continue // call with no variadic operands at all
+		}
+		if salt == noVariadic && pt.Kind() == reflect.String {
+			args = append(args, reflect.ValueOf("100%% of %s"))
+			continue
+		}
 		if variadic {
 			et := pt.Elem()
 			switch {
@@ -235,6 +244,31 @@ func cmdForms(args []string) {
 			}
 			logs = log.evs
 			rec["iscallback"] = isCb
+			// every variadic construct once more WITHOUT variadic operands (and with % verbs in its string parameters)
+			if ft.IsVariadic() {
+				nv := map[string]string{}
+				for _, form := range []string{"func", "stmt", "group"} {
+					form := form
+					safely(func() ([]byte, error) {
+						a, can := synth(ft, &evLog{}, name, noVariadic)
+						if !can {
+							return nil, nil
+						}
+						var res *jen.Statement
+						switch form {
+						case "func":
+							res = pkg[name].Call(a)[0].Interface().(*jen.Statement)
+						case "stmt":
+							res = reflect.ValueOf(jen.Add()).MethodByName(name).Call(a)[0].Interface().(*jen.Statement)
+						case "group":
+							res = jen.CustomFunc(jen.Options{}, func(g *jen.Group) { reflect.ValueOf(g).MethodByName(name).Call(a) })
+						}
+						nv[form] = rawOf(res)
+						return nil, nil
+					})
+				}
+				rec["nv_func"], rec["nv_stmt"], rec["nv_group"] = nv["func"], nv["stmt"], nv["group"]
+			}
 			// variadic Code constructs called with exactly ONE statement: the Group form must append a NEW statement
 			// (what is chained on the result must not be written into the caller's argument)
 			if ft.IsVariadic() && ft.In(ft.NumIn()-1).Elem() == codeType && ft.NumIn() == 1 {
@@ -265,7 +299,7 @@ func cmdForms(args []string) {
 		if _, has := rec["builderror"]; !has {
 			rec["builderror"] = ""
 		}
-		for _, k := range []string{"one_group", "one_func", "arg_before", "arg_after"} {
+		for _, k := range []string{"one_group", "one_func", "arg_before", "arg_after", "nv_func", "nv_stmt", "nv_group"} {
 			if _, has := rec[k]; !has {
 				rec[k] = ""
 			}
